@@ -8,10 +8,12 @@ import (
 	"testing"
 
 	"github.com/blinklabs-io/gouroboros/cbor"
+	"github.com/blinklabs-io/gouroboros/ledger"
 	"github.com/blinklabs-io/gouroboros/ledger/babbage"
 	"github.com/blinklabs-io/gouroboros/ledger/byron"
 	"github.com/blinklabs-io/gouroboros/ledger/common"
 	"github.com/blinklabs-io/gouroboros/ledger/conway"
+	"github.com/blinklabs-io/gouroboros/ledger/dijkstra"
 	"github.com/blinklabs-io/gouroboros/protocol/localstatequery"
 	"github.com/blinklabs-io/gouroboros/protocol/peersharing"
 	"pgregory.net/rapid"
@@ -116,6 +118,21 @@ type tsample struct {
 	id      uint64
 	variant string
 	tree    *xcbor.Node
+	// tagged lists below the root (path, id); when empty the root list is the
+	// tagged list and id its first element
+	tagged []tagAt
+}
+
+type tagAt struct {
+	path string
+	id   uint64
+}
+
+func (s tsample) tags() []tagAt {
+	if len(s.tagged) == 0 {
+		return []tagAt{{"", s.id}}
+	}
+	return s.tagged
 }
 
 type tfamily struct {
@@ -171,67 +188,67 @@ func families() []tfamily {
 		{"native-script", decodeInto[common.NativeScript], func(g *tgen) []tsample {
 			k := int(g.u(3))
 			return []tsample{
-				{0, "pubkey", xcbor.A(xcbor.U(0), xcbor.B(g.bytes(28)))},
-				{1, "all", xcbor.A(xcbor.U(1), g.pubkeyScripts(k))},
-				{2, "any", xcbor.A(xcbor.U(2), g.pubkeyScripts(k))},
-				{3, "n-of-k", xcbor.A(xcbor.U(3), xcbor.U(g.u(4)), g.pubkeyScripts(k))},
-				{4, "invalid-before", xcbor.A(xcbor.U(4), xcbor.U(g.u(1<<40)))},
-				{5, "invalid-hereafter", xcbor.A(xcbor.U(5), xcbor.U(g.u(1<<40)))},
-				{6, "require-guard", xcbor.A(xcbor.U(6), g.cred())},
+				{0, "pubkey", xcbor.A(xcbor.U(0), xcbor.B(g.bytes(28))), nil},
+				{1, "all", xcbor.A(xcbor.U(1), g.pubkeyScripts(k)), nil},
+				{2, "any", xcbor.A(xcbor.U(2), g.pubkeyScripts(k)), nil},
+				{3, "n-of-k", xcbor.A(xcbor.U(3), xcbor.U(g.u(4)), g.pubkeyScripts(k)), nil},
+				{4, "invalid-before", xcbor.A(xcbor.U(4), xcbor.U(g.u(1<<40))), nil},
+				{5, "invalid-hereafter", xcbor.A(xcbor.U(5), xcbor.U(g.u(1<<40))), nil},
+				{6, "require-guard", xcbor.A(xcbor.U(6), g.cred()), nil},
 				{1, "all-nested", xcbor.A(xcbor.U(1), xcbor.A(
 					xcbor.A(xcbor.U(2), g.pubkeyScripts(2)),
 					xcbor.A(xcbor.U(5), xcbor.U(g.u(1000))),
-					xcbor.A(xcbor.U(1), g.pubkeyScripts(1))))},
+					xcbor.A(xcbor.U(1), g.pubkeyScripts(1)))), nil},
 			}
 		}},
 		{"certificate", decodeInto[common.CertificateWrapper], func(g *tgen) []tsample {
 			coin := func() *xcbor.Node { return xcbor.U(g.u(1 << 50)) }
 			return []tsample{
-				{0, "stake-reg", xcbor.A(xcbor.U(0), g.cred())},
-				{1, "stake-dereg", xcbor.A(xcbor.U(1), g.cred())},
-				{2, "stake-deleg", xcbor.A(xcbor.U(2), g.cred(), xcbor.B(g.bytes(28)))},
-				{4, "pool-retire", xcbor.A(xcbor.U(4), xcbor.B(g.bytes(28)), xcbor.U(g.u(1000)))},
-				{5, "genesis-deleg", xcbor.A(xcbor.U(5), xcbor.B(g.bytes(28)), xcbor.B(g.bytes(28)), xcbor.B(g.bytes(32)))},
-				{7, "reg", xcbor.A(xcbor.U(7), g.cred(), coin())},
-				{8, "dereg", xcbor.A(xcbor.U(8), g.cred(), coin())},
-				{9, "vote-deleg", xcbor.A(xcbor.U(9), g.cred(), g.drep())},
-				{10, "stake-vote-deleg", xcbor.A(xcbor.U(10), g.cred(), xcbor.B(g.bytes(28)), g.drep())},
-				{11, "stake-reg-deleg", xcbor.A(xcbor.U(11), g.cred(), xcbor.B(g.bytes(28)), coin())},
-				{12, "vote-reg-deleg", xcbor.A(xcbor.U(12), g.cred(), g.drep(), coin())},
-				{13, "stake-vote-reg-deleg", xcbor.A(xcbor.U(13), g.cred(), xcbor.B(g.bytes(28)), g.drep(), coin())},
-				{14, "auth-committee-hot", xcbor.A(xcbor.U(14), g.cred(), g.cred())},
-				{15, "resign-committee-cold", xcbor.A(xcbor.U(15), g.cred(), g.anchorOrNull())},
-				{16, "reg-drep", xcbor.A(xcbor.U(16), g.cred(), coin(), g.anchorOrNull())},
-				{17, "dereg-drep", xcbor.A(xcbor.U(17), g.cred(), coin())},
-				{18, "update-drep", xcbor.A(xcbor.U(18), g.cred(), g.anchorOrNull())},
+				{0, "stake-reg", xcbor.A(xcbor.U(0), g.cred()), nil},
+				{1, "stake-dereg", xcbor.A(xcbor.U(1), g.cred()), nil},
+				{2, "stake-deleg", xcbor.A(xcbor.U(2), g.cred(), xcbor.B(g.bytes(28))), nil},
+				{4, "pool-retire", xcbor.A(xcbor.U(4), xcbor.B(g.bytes(28)), xcbor.U(g.u(1000))), nil},
+				{5, "genesis-deleg", xcbor.A(xcbor.U(5), xcbor.B(g.bytes(28)), xcbor.B(g.bytes(28)), xcbor.B(g.bytes(32))), nil},
+				{7, "reg", xcbor.A(xcbor.U(7), g.cred(), coin()), nil},
+				{8, "dereg", xcbor.A(xcbor.U(8), g.cred(), coin()), nil},
+				{9, "vote-deleg", xcbor.A(xcbor.U(9), g.cred(), g.drep()), nil},
+				{10, "stake-vote-deleg", xcbor.A(xcbor.U(10), g.cred(), xcbor.B(g.bytes(28)), g.drep()), nil},
+				{11, "stake-reg-deleg", xcbor.A(xcbor.U(11), g.cred(), xcbor.B(g.bytes(28)), coin()), nil},
+				{12, "vote-reg-deleg", xcbor.A(xcbor.U(12), g.cred(), g.drep(), coin()), nil},
+				{13, "stake-vote-reg-deleg", xcbor.A(xcbor.U(13), g.cred(), xcbor.B(g.bytes(28)), g.drep(), coin()), nil},
+				{14, "auth-committee-hot", xcbor.A(xcbor.U(14), g.cred(), g.cred()), nil},
+				{15, "resign-committee-cold", xcbor.A(xcbor.U(15), g.cred(), g.anchorOrNull()), nil},
+				{16, "reg-drep", xcbor.A(xcbor.U(16), g.cred(), coin(), g.anchorOrNull()), nil},
+				{17, "dereg-drep", xcbor.A(xcbor.U(17), g.cred(), coin()), nil},
+				{18, "update-drep", xcbor.A(xcbor.U(18), g.cred(), g.anchorOrNull()), nil},
 			}
 		}},
 		{"drep", decodeInto[common.Drep], func(g *tgen) []tsample {
 			return []tsample{
-				{0, "keyhash", xcbor.A(xcbor.U(0), xcbor.B(g.bytes(28)))},
-				{1, "scripthash", xcbor.A(xcbor.U(1), xcbor.B(g.bytes(28)))},
-				{2, "abstain", xcbor.A(xcbor.U(2))},
-				{3, "no-confidence", xcbor.A(xcbor.U(3))},
+				{0, "keyhash", xcbor.A(xcbor.U(0), xcbor.B(g.bytes(28))), nil},
+				{1, "scripthash", xcbor.A(xcbor.U(1), xcbor.B(g.bytes(28))), nil},
+				{2, "abstain", xcbor.A(xcbor.U(2)), nil},
+				{3, "no-confidence", xcbor.A(xcbor.U(3)), nil},
 			}
 		}},
 		{"pool-relay", decodeInto[common.PoolRelay], func(g *tgen) []tsample {
 			return []tsample{
-				{0, "single-host-addr", xcbor.A(xcbor.U(0), xcbor.U(g.u(65535)), xcbor.B(g.bytes(4)), xcbor.Null())},
-				{1, "single-host-name", xcbor.A(xcbor.U(1), xcbor.U(g.u(65535)), xcbor.T("relay.example"))},
-				{2, "multi-host-name", xcbor.A(xcbor.U(2), xcbor.T("relays.example"))},
+				{0, "single-host-addr", xcbor.A(xcbor.U(0), xcbor.U(g.u(65535)), xcbor.B(g.bytes(4)), xcbor.Null()), nil},
+				{1, "single-host-name", xcbor.A(xcbor.U(1), xcbor.U(g.u(65535)), xcbor.T("relay.example")), nil},
+				{2, "multi-host-name", xcbor.A(xcbor.U(2), xcbor.T("relays.example")), nil},
 			}
 		}},
 		{"nonce", decodeInto[common.Nonce], func(g *tgen) []tsample {
 			return []tsample{
-				{0, "neutral", xcbor.A(xcbor.U(0))},
-				{1, "nonce", xcbor.A(xcbor.U(1), xcbor.B(g.bytes(32)))},
+				{0, "neutral", xcbor.A(xcbor.U(0)), nil},
+				{1, "nonce", xcbor.A(xcbor.U(1), xcbor.B(g.bytes(32))), nil},
 			}
 		}},
 		{"datum-option", decodeInto[babbage.BabbageTransactionOutputDatumOption], func(g *tgen) []tsample {
 			inner := xcbor.A(xcbor.U(g.u(1000)), xcbor.B(g.bytes(5))).Encode()
 			return []tsample{
-				{0, "hash", xcbor.A(xcbor.U(0), xcbor.B(g.bytes(32)))},
-				{1, "inline", xcbor.A(xcbor.U(1), xcbor.Tg(24, xcbor.B(inner)))},
+				{0, "hash", xcbor.A(xcbor.U(0), xcbor.B(g.bytes(32))), nil},
+				{1, "inline", xcbor.A(xcbor.U(1), xcbor.Tg(24, xcbor.B(inner))), nil},
 			}
 		}},
 		{"conway-gov-action", decodeInto[conway.ConwayGovAction], func(g *tgen) []tsample {
@@ -242,37 +259,87 @@ func families() []tfamily {
 				return xcbor.A(xcbor.B(g.bytes(32)), xcbor.U(g.u(100)))
 			}
 			return []tsample{
-				{1, "hard-fork", xcbor.A(xcbor.U(1), aid(), xcbor.A(xcbor.U(g.u(20)), xcbor.U(g.u(5))))},
-				{3, "no-confidence", xcbor.A(xcbor.U(3), aid())},
+				{1, "hard-fork", xcbor.A(xcbor.U(1), aid(), xcbor.A(xcbor.U(g.u(20)), xcbor.U(g.u(5)))), nil},
+				{3, "no-confidence", xcbor.A(xcbor.U(3), aid()), nil},
 				{5, "new-constitution", xcbor.A(xcbor.U(5), aid(), xcbor.A(
-					xcbor.A(xcbor.T("https://c.invalid"), xcbor.B(g.bytes(32))), xcbor.Null()))},
-				{6, "info", xcbor.A(xcbor.U(6))},
+					xcbor.A(xcbor.T("https://c.invalid"), xcbor.B(g.bytes(32))), xcbor.Null())), nil},
+				{6, "info", xcbor.A(xcbor.U(6)), nil},
 			}
 		}},
 		{"byron-tx-input", decodeInto[byron.ByronTransactionInput], func(g *tgen) []tsample {
 			inner := xcbor.A(xcbor.B(g.bytes(32)), xcbor.U(g.u(1000))).Encode()
 			return []tsample{
-				{0, "regular", xcbor.A(xcbor.U(0), xcbor.Tg(24, xcbor.B(inner)))},
+				{0, "regular", xcbor.A(xcbor.U(0), xcbor.Tg(24, xcbor.B(inner))), nil},
 			}
 		}},
 		{"peer-address", decodeInto[peersharing.PeerAddress], func(g *tgen) []tsample {
 			w := func() *xcbor.Node { return xcbor.U(g.u(0xffffffff)) }
 			return []tsample{
-				{0, "ipv4", xcbor.A(xcbor.U(0), w(), xcbor.U(g.u(65535)))},
-				{1, "ipv6-v13", xcbor.A(xcbor.U(1), w(), w(), w(), w(), xcbor.U(g.u(65535)))},
-				{1, "ipv6-v11", xcbor.A(xcbor.U(1), w(), w(), w(), w(), w(), w(), xcbor.U(g.u(65535)))},
+				{0, "ipv4", xcbor.A(xcbor.U(0), w(), xcbor.U(g.u(65535))), nil},
+				{1, "ipv6-v13", xcbor.A(xcbor.U(1), w(), w(), w(), w(), xcbor.U(g.u(65535))), nil},
+				{1, "ipv6-v11", xcbor.A(xcbor.U(1), w(), w(), w(), w(), w(), w(), xcbor.U(g.u(65535))), nil},
 			}
 		}},
 		{"lsq-with-origin-slot", decodeInto[localstatequery.WithOriginSlot], func(g *tgen) []tsample {
 			return []tsample{
-				{0, "origin", xcbor.A(xcbor.U(0))},
-				{1, "at", xcbor.A(xcbor.U(1), xcbor.U(g.u(1<<40)))},
+				{0, "origin", xcbor.A(xcbor.U(0)), nil},
+				{1, "at", xcbor.A(xcbor.U(1), xcbor.U(g.u(1<<40))), nil},
 			}
 		}},
 		{"lsq-relay-access-point", decodeInto[localstatequery.RelayAccessPoint], func(g *tgen) []tsample {
 			return []tsample{
-				{2, "domain", xcbor.A(xcbor.U(2), xcbor.B([]byte("relay.example")), xcbor.U(g.u(65535)))},
-				{3, "srv", xcbor.A(xcbor.U(3), xcbor.B([]byte("_cardano._tcp.example")))},
+				{0, "ipv4-word", xcbor.A(xcbor.U(0), xcbor.U(g.u(0xffffffff)), xcbor.U(g.u(65535))), nil},
+				{0, "ipv4-bytes", xcbor.A(xcbor.U(0), xcbor.B(g.bytes(4)), xcbor.U(g.u(65535))), nil},
+				{1, "ipv6-words", xcbor.A(xcbor.U(1), xcbor.A(xcbor.U(g.u(0xffffffff)), xcbor.U(g.u(0xffffffff)),
+					xcbor.U(g.u(0xffffffff)), xcbor.U(g.u(0xffffffff))), xcbor.U(g.u(65535))), nil},
+				{2, "domain", xcbor.A(xcbor.U(2), xcbor.B([]byte("relay.example")), xcbor.U(g.u(65535))), nil},
+				{3, "srv", xcbor.A(xcbor.U(3), xcbor.B([]byte("_cardano._tcp.example"))), nil},
+			}
+		}},
+		{"lsq-hot-cred-auth-status", decodeInto[localstatequery.HotCredAuthStatusValue], func(g *tgen) []tsample {
+			return []tsample{
+				{0, "not-authorized", xcbor.A(xcbor.U(0)), nil},
+				{1, "authorized", xcbor.A(xcbor.U(1), g.cred()), nil},
+				{2, "resigned", xcbor.A(xcbor.U(2), g.anchorOrNull()), nil},
+			}
+		}},
+		{"lsq-next-epoch-change", decodeInto[localstatequery.NextEpochChangeValue], func(g *tgen) []tsample {
+			return []tsample{
+				{5, "term-adjusted", xcbor.A(xcbor.U(5), xcbor.U(g.u(1<<30))), nil},
+			}
+		}},
+		{"dijkstra-gov-action", decodeInto[dijkstra.DijkstraGovAction], func(g *tgen) []tsample {
+			aid := func() *xcbor.Node {
+				if g.u(1) == 0 {
+					return xcbor.Null()
+				}
+				return xcbor.A(xcbor.B(g.bytes(32)), xcbor.U(g.u(100)))
+			}
+			return []tsample{
+				{1, "hard-fork", xcbor.A(xcbor.U(1), aid(), xcbor.A(xcbor.U(g.u(20)), xcbor.U(g.u(5)))), nil},
+				{3, "no-confidence", xcbor.A(xcbor.U(3), aid()), nil},
+				{6, "info", xcbor.A(xcbor.U(6)), nil},
+			}
+		}},
+		// failure reasons: the tagged lists sit below an untagged envelope
+		// [[era, [[0, [utxow-tag, ...]]]]]; a misread tag must not make the
+		// whole reply fall back to an opaque GenericError
+		{"tx-submit-error", func(b []byte) (any, error) {
+			e, err := ledger.NewTxSubmitErrorFromCbor(b)
+			if err != nil {
+				return nil, err
+			}
+			return &e, nil
+		}, func(g *tgen) []tsample {
+			env := func(era uint64, utxow *xcbor.Node) *xcbor.Node {
+				return xcbor.A(xcbor.A(xcbor.U(era), xcbor.A(xcbor.A(xcbor.U(0), utxow))))
+			}
+			tg := func(id uint64) []tagAt { return []tagAt{{"/0/1/0", 0}, {"/0/1/0/1", id}} }
+			era := 1 + g.u(2) // Shelley, Allegra, Mary share one numbering
+			return []tsample{
+				{8, "conway-invalid-metadata", env(6, xcbor.A(xcbor.U(8))), tg(8)},
+				{8, "dijkstra-invalid-metadata", env(7, xcbor.A(xcbor.U(8))), tg(8)},
+				{8, "shelley-invalid-metadata", env(era, xcbor.A(xcbor.U(8))), tg(8)},
 			}
 		}},
 	}
@@ -299,24 +366,39 @@ func allHeadVariants() []headVariant {
 	return out
 }
 
-func applyHead(tree *xcbor.Node, hv headVariant) *xcbor.Node {
-	n := tree.Clone()
-	if hv.form != xcbor.FormMinimal {
-		n.Apply(hv.form, 0)
+func applyHead(tree *xcbor.Node, hv headVariant, paths ...string) *xcbor.Node {
+	root := tree.Clone()
+	if len(paths) == 0 {
+		paths = []string{""}
 	}
-	if hv.idWide {
-		n.Items[0].Width = 1
+	for _, p := range paths {
+		n := root.At(p)
+		if hv.form != xcbor.FormMinimal {
+			n.Apply(hv.form, 0)
+		}
+		if hv.idWide {
+			n.Items[0].Width = 1
+		}
 	}
-	return n
+	return root
+}
+
+// libraryAdmits reports whether the library's own generic decoder accepts the
+// bytes as one complete CBOR item: the form is then admissible input for the
+// tagged-sum decoders too.
+func libraryAdmits(b []byte) bool {
+	var x any
+	n, err := cbor.Decode(b, &x)
+	return err == nil && n == len(b)
 }
 
 // TestC03: tagged-sum decoding follows the tag whatever the list-length encoding.
 func TestC03(t *testing.T) {
 	rec := evi.New(t, "C03", evi.Exploration,
-		"every tagged-list variant sample (11 families: native scripts 0-6, certificates, DRep, pool relay, nonce, datum option, Conway gov actions, Byron tx input, peer address, LSQ origin-slot / relay access point) with rapid-drawn field values, its outer list head re-encoded in each of 6 forms (minimal, 1/2/4/8-byte non-minimal, indefinite) x id as immediate or 0x18-prefixed, plus rapid restyling of nested list heads; oracles: cbor.DecodeIdFromList returns the true id or an error; cbor.DecodeById picks the object registered for the true id; the family decoder yields the same variant and fields as for the minimal form, or an error. non-trivial = head form != minimal or id non-minimal or nested restyle applied, and the form was accepted by the decoder; distinct by (family, variant, head variant, nested edits, field bytes)")
+		"every tagged-list variant sample (15 families: native scripts 0-6, certificates, DRep, pool relay, nonce, datum option, Conway and Dijkstra gov actions, Byron tx input, peer address, LSQ origin-slot / relay access point / hot-credential status / next-epoch change, tx-submit failure reasons whose tagged lists sit below an untagged envelope) with rapid-drawn field values, its outer list head re-encoded in each of 6 forms (minimal, 1/2/4/8-byte non-minimal, indefinite) x id as immediate or 0x18-prefixed, plus rapid restyling of nested list heads; oracles: cbor.DecodeIdFromList returns the true id, cbor.ListLength the true element count, cbor.DecodeById the object registered for the true id, and the family decoder the same variant and fields as for the minimal form; an error is tolerated only for a header form that the library's own generic decoder (cbor.Decode into any) also refuses. non-trivial = head form != minimal or id non-minimal or nested restyle applied, and the form was accepted by the decoder; distinct by (family, variant, head variant, nested edits, field bytes)")
 	defer rec.Finish()
 	rec.Assume("xcbor re-encoding preserves the CBOR data model (self-tested in internal/xcbor)",
-		"a decode error on a non-minimal/indefinite form is allowed by the statement (only silent reinterpretation is forbidden)")
+		"a header form is admissible when the library's generic decoder accepts the bytes; a tagged-sum decoder that rejects such a form does not produce the variant named by the first element")
 	fams := families()
 	hvs := allHeadVariants()
 
@@ -331,7 +413,14 @@ func TestC03(t *testing.T) {
 			edits := xcbor.Restyle(rt, base, xcbor.StyleOpts{
 				MaxEdits: 3,
 				Kinds:    map[xcbor.Kind]bool{xcbor.Array: true, xcbor.Uint: true},
-				Filter:   func(n *xcbor.Node, path string) bool { return path != "" && path != "/0" },
+				Filter: func(n *xcbor.Node, path string) bool {
+					for _, tg := range s.tags() {
+						if path == tg.path || path == tg.path+"/0" {
+							return false
+						}
+					}
+					return true
+				},
 			})
 			nested = xcbor.EditsString(edits)
 		}
@@ -346,38 +435,73 @@ func TestC03(t *testing.T) {
 		}
 		refDump := dump(ref)
 
+		tags := s.tags()
+		tagPaths := make([]string, len(tags))
+		for i, tg := range tags {
+			tagPaths[i] = tg.path
+		}
 		for _, hv := range hvs {
-			enc := applyHead(base, hv).Encode()
+			enc := applyHead(base, hv, tagPaths...).Encode()
 			caseObj := map[string]any{"family": fam.name, "variant": s.variant, "id": s.id,
 				"head": hv.String(), "nested": nested, "cbor": evi.Hex(enc), "minimal_cbor": evi.Hex(minEnc)}
 
-			// (a) direct: the id extractor
-			rec.Eval()
-			id, err := cbor.DecodeIdFromList(enc)
-			if err == nil && uint64(id) != s.id {
-				rec.Fail(rt, fmt.Sprintf("DecodeIdFromList:%s", hv),
-					fmt.Sprintf("DecodeIdFromList(%x) = %d, the list's first element is %d (%s/%s)", enc, id, s.id, fam.name, s.variant),
-					caseObj)
-			}
-			if err != nil {
-				rec.Class("idextract_error:" + hv.String())
-			}
+			for _, tg := range tags {
+				sub := applyHead(base.At(tg.path), hv)
+				subEnc := sub.Encode()
+				subObj := map[string]any{"family": fam.name, "variant": s.variant, "id": tg.id, "tagged_path": tg.path,
+					"head": hv.String(), "nested": nested, "cbor": evi.Hex(subEnc)}
+				admitted := libraryAdmits(subEnc)
 
-			// (b) DecodeById picks the registered object of the true id
-			rec.Eval()
-			type other struct {
-				cbor.StructAsArray
-				X []cbor.RawMessage
-			}
-			trueObj := &[]cbor.RawMessage{}
-			idMap := map[int]any{}
-			for i := 0; i < 24; i++ {
-				idMap[i] = &other{}
-			}
-			idMap[int(s.id)] = trueObj
-			if got, err := cbor.DecodeById(enc, idMap); err == nil && got != any(trueObj) {
-				rec.Fail(rt, fmt.Sprintf("DecodeById:%s", hv),
-					fmt.Sprintf("DecodeById(%x) selected the object registered for a different id than %d", enc, s.id), caseObj)
+				// (a) direct: the id extractor
+				rec.Eval()
+				id, err := cbor.DecodeIdFromList(subEnc)
+				if err == nil && uint64(id) != tg.id {
+					rec.Fail(rt, fmt.Sprintf("DecodeIdFromList:%s", hv),
+						fmt.Sprintf("DecodeIdFromList(%x) = %d, the list's first element is %d (%s/%s)", subEnc, id, tg.id, fam.name, s.variant),
+						subObj)
+				}
+				if err != nil {
+					rec.Class("idextract_error:" + hv.String())
+					if admitted {
+						rec.Fail(rt, fmt.Sprintf("DecodeIdFromList-rejects-admissible:%s", hv),
+							fmt.Sprintf("DecodeIdFromList(%x) fails (%v) on the list [%d, ...] (%s/%s) in a header form the library's own decoder accepts; the variant named by the first element is not produced", subEnc, err, tg.id, fam.name, s.variant),
+							subObj)
+					}
+				}
+
+				// (a') the list-length reader the tagged decoders consult next to the id
+				rec.Eval()
+				if n, err := cbor.ListLength(subEnc); err == nil && n != len(sub.Items) {
+					rec.Fail(rt, fmt.Sprintf("ListLength:%s", hv),
+						fmt.Sprintf("ListLength(%x) = %d, the list has %d elements (%s/%s)", subEnc, n, len(sub.Items), fam.name, s.variant),
+						subObj)
+				} else if err != nil && admitted {
+					rec.Fail(rt, fmt.Sprintf("ListLength-rejects-admissible:%s", hv),
+						fmt.Sprintf("ListLength(%x) fails (%v) on a %d-element list in a header form the library's own decoder accepts", subEnc, err, len(sub.Items)),
+						subObj)
+				}
+
+				// (b) DecodeById picks the registered object of the true id
+				rec.Eval()
+				type other struct {
+					cbor.StructAsArray
+					X []cbor.RawMessage
+				}
+				trueObj := &[]cbor.RawMessage{}
+				idMap := map[int]any{}
+				for i := 0; i < 24; i++ {
+					idMap[i] = &other{}
+				}
+				idMap[int(tg.id)] = trueObj
+				got, err := cbor.DecodeById(subEnc, idMap)
+				if err == nil && got != any(trueObj) {
+					rec.Fail(rt, fmt.Sprintf("DecodeById:%s", hv),
+						fmt.Sprintf("DecodeById(%x) selected the object registered for a different id than %d", subEnc, tg.id), subObj)
+				}
+				if err != nil && admitted {
+					rec.Fail(rt, fmt.Sprintf("DecodeById-rejects-admissible:%s", hv),
+						fmt.Sprintf("DecodeById(%x) fails (%v) on the list [%d, ...] in a header form the library's own decoder accepts", subEnc, err, tg.id), subObj)
+				}
 			}
 
 			// (c) the family decoder
@@ -385,6 +509,13 @@ func TestC03(t *testing.T) {
 			got, err := fam.decode(enc)
 			if err != nil {
 				rec.Class("form_rejected:" + hv.String())
+				if libraryAdmits(enc) {
+					// the minimal form decoded (ref), the library's decoder admits this
+					// form, yet the variant named by the first element is not produced
+					rec.Fail(rt, fmt.Sprintf("%s:id=%d(%s):rejected:%s", fam.name, s.id, s.variant, hv),
+						fmt.Sprintf("%s %x (list [%d, ...], %s) is rejected (%v) although its minimal encoding %x decodes and the library's generic decoder accepts this header form",
+							fam.name, enc, s.id, hv, err, minEnc), caseObj)
+				}
 				continue
 			}
 			rec.Class("form_accepted:" + hv.String())
